@@ -172,6 +172,44 @@ Proof.
     apply existsb_exists. exists (last_non_nil st order). split; [exact I0 | apply goerr_eqb_eq; reflexivity].
 Qed.
 
+(* a Load that INTERLEAVES with concurrent Sets of one concrete type - after any k of the Stores, in
+   any order - returns the old content or one of the non-nil values being Set: what
+   [mid_allowed] accepts of the implementation *)
+Lemma last_non_nil_firstn : forall order k st,
+  last_non_nil st (firstn k order) = st \/ In (last_non_nil st (firstn k order)) (non_nil_of order).
+Proof.
+  induction order as [|v tl IH]; intros k st; destruct k; simpl; auto.
+  destruct v as [d|].
+  - destruct (IH k (Some d)) as [E | I].
+    + right. rewrite E. left. reflexivity.
+    + right. right. exact I.
+  - apply IH.
+Qed.
+
+Lemma consistent_firstn : forall order k st, consistent st order = true -> consistent st (firstn k order) = true.
+Proof.
+  induction order as [|v tl IH]; intros k st C; destruct k; simpl; auto.
+  destruct v as [d|]; simpl in C |- *.
+  - apply andb_true_iff in C. destruct C as (T & C). rewrite T. simpl. apply IH. exact C.
+  - apply IH. exact C.
+Qed.
+
+Lemma interleaved_load_l : forall st vs order k,
+  Permutation vs order -> consistent st vs = true ->
+  let '(st', p) := ae_sets guard_today st (firstn k order) in
+  p = false /\ mid_allowed st vs (ae_load st') = true.
+Proof.
+  intros st vs order k P C.
+  pose proof (consistent_firstn order k st (consistent_perm st _ _ P C)) as C'.
+  rewrite (sets_last_wins_l _ _ C'). split; [reflexivity|].
+  unfold mid_allowed, ae_load. apply orb_true_iff.
+  destruct (last_non_nil_firstn order k st) as [E | I].
+  - left. rewrite E. apply goerr_eqb_eq. reflexivity.
+  - right. apply existsb_exists. exists (last_non_nil st (firstn k order)). split.
+    + eapply Permutation_in; [apply Permutation_sym; apply non_nil_perm; exact P | exact I].
+    + apply goerr_eqb_eq. reflexivity.
+Qed.
+
 (* ---- the judgement of Check.v on histories of one AtomicError follows from the model ---- *)
 Lemma non_nil_dyns : forall vs, non_nil_of vs = map Some (dyns vs).
 Proof.
@@ -196,7 +234,7 @@ Lemma ae_agrees_prop_inv : forall ops st cur l,
 Proof.
   induction ops as [|op tl IH]; intros st cur l I A; [reflexivity|].
   pose proof I as (C & N & S). subst cur.
-  destruct op as [v p | o | vs p o]; cbn [ae_agrees ae_prop] in A |- *.
+  destruct op as [v p | o | vs mids p o]; cbn [ae_agrees ae_prop] in A |- *.
   - destruct v as [d|].
     + destruct (same_type st (Some d)) eqn:T.
       * destruct (set_non_nil_interface_is_loaded_l st (Some d)) as (E & _); [discriminate | exact T |].
@@ -211,8 +249,16 @@ Proof.
   - apply andb_true_iff in A. destruct A as (A1 & A2). unfold ae_load in A1.
     rewrite goerr_eqb_eq in A1. subst o. rewrite (load_ok_inv st st l I). simpl. apply (IH st); [exact I | exact A2].
   - destruct (consistent st vs).
-    + apply andb_true_iff in A. destruct A as (A0 & A2). apply andb_true_iff in A0. destruct A0 as (A1 & A3).
+    + apply andb_true_iff in A. destruct A as (A0 & A2). apply andb_true_iff in A0. destruct A0 as (A0 & A3).
+      apply andb_true_iff in A0. destruct A0 as (A1 & AM).
       rewrite A1. simpl.
+      assert (forallb (mid_ok l vs) mids = true) as MM.
+      { rewrite forallb_forall in AM |- *. intros o' Io. specialize (AM o' Io). unfold mid_allowed in AM. unfold mid_ok.
+        apply orb_true_iff in AM. apply orb_true_iff. destruct AM as [AM | AM].
+        - left. apply goerr_eqb_eq in AM. subst o'. apply (load_ok_inv st st l I).
+        - right. rewrite non_nil_dyns in AM. apply existsb_exists in AM. destruct AM as (w & W1 & W2).
+          apply in_map_iff in W1. destruct W1 as (d & <- & W1). apply existsb_exists. exists d. split; assumption. }
+      rewrite MM. simpl.
       assert (inv_ap o o (dyns vs ++ l)) as I'.
       { unfold conc_allowed in A3. rewrite non_nil_dyns in A3.
         destruct (dyns vs) as [|x r] eqn:D; simpl in A3.
